@@ -325,6 +325,18 @@ MUTANTS = [
     ('C12', 'abort-leaves-savepoint-store', CN,
      "            self._abort(self._savepoint_storage.creating)\n            self._abort_savepoint()",
      "            self._abort(self._savepoint_storage.creating)"),
+    ('C13', 'proxy-pack-keeps-all-files', BL,
+     "                try:\n                    self.loadSerial(oid, serial)\n                except POSKeyError:\n                    remove_committed(filepath)\n\n            if not os.listdir(oid_path):",
+     "                try:\n                    self.loadSerial(oid, serial)\n                except POSKeyError:\n                    pass\n\n            if not os.listdir(oid_path):"),
+    ('C13', 'proxy-undo-copies-undone-revision', BL,
+     "                    orig_fn = self.fshelper.getBlobFilename(oid, serial_before)",
+     "                    orig_fn = self.fshelper.getBlobFilename(oid, serial_id)"),
+    ('C13', 'consume-failure-loses-previous-data', BL,
+     "            if previous_uncommitted:\n                os.rename(target_aside, target)\n                self._p_blob_uncommitted = target",
+     "            if previous_uncommitted:\n                self._p_blob_uncommitted = None"),
+    ('C13', 'demo-blobs-stored-in-base-dir', DS,
+     "            blob_dir = tempfile.mkdtemp('.demoblobs')",
+     "            blob_dir = self.base.fshelper.base_dir"),
     ('C15', 'at-is-exclusive', DBF,
      "        before = at.laterThan(at).raw()",
      "        before = at.raw()"),
